@@ -20,7 +20,7 @@ func (Engine) Info(prop string) core.Info {
 	case "C01":
 		return core.Info{
 			Level:        "exploration",
-			Rule:         "one plan = two real fbb.Sessions with seeded message sets (0-14 each way), per-MID accept/reject/defer policies, master/slave, MOTD, batched/unbatched handlers, GZIP_EXPERIMENT per station, optional conn capabilities, and per-direction segmentation and latency tapes on the simulated link; no faults. Non-trivial: at least one message body crossed the link. Distinct: distinct event-log hash (deliveries, handler callbacks and exchange results with simulated timestamps).",
+			Rule:         "one plan = two real fbb.Sessions with seeded message sets (0-22 each way), per-MID accept/reject/defer policies, master/slave, MOTD, batched/unbatched handlers, GZIP_EXPERIMENT per station, optional conn capabilities, and per-direction segmentation and latency tapes on the simulated link; no faults. Non-trivial: at least one message body crossed the link. Distinct: distinct event-log hash (deliveries, handler callbacks and exchange results with simulated timestamps).",
 			Real:         realCode,
 			Stub:         []string{"clock (testing/synctest)", "link (sim/pipe)", "mailbox handler (ref/mbox)", "GZIP_EXPERIMENT lookup (os import swapped for sim/shim/envos)"},
 			Assumptions:  []string{"library runs on the Go 1.26.8 standard library, not 1.24.0", "goroutine choice between two environment events is the Go runtime's at GOMAXPROCS=1"},
